@@ -256,7 +256,20 @@ func structure(r *rng.R, X, h0 *val.V) {
 	}
 	one := uint64(math.Float32bits(1))
 	for n := r.Range(1, 2); n > 0; n-- {
-		switch r.Intn(11) {
+		switch r.Intn(12) {
+		case 11: // a burst followed by near silence: from some frame on almost everything is zero, a few rows keep two non-zeros
+			a := r.Range(1, seq)
+			for t := a; t < seq; t++ {
+				for b := 0; b < batch; b++ {
+					keep := r.Chance(1, 3) && in >= 2
+					k1, k2 := r.Intn(in), r.Intn(in)
+					for i := 0; i < in; i++ {
+						if !(keep && (i == k1 || i == k2)) {
+							*at(t, b, i) = 0
+						}
+					}
+				}
+			}
 		case 10: // consecutive frames that are nearly, but not bit for bit, equal (a slowly drifting signal)
 			a := r.Intn(seq)
 			for t := a + 1; t < seq && t < a+r.Range(2, 4); t++ {
